@@ -217,3 +217,7 @@ UNITS += [
     Unit("C08", "jsonargparse._namespace:strip_meta", sm_setup, sm_post, no_exc, trusted=["recreate_branches: its own unit"]),
     Unit("C08", "jsonargparse._namespace:Namespace.clone", clone_setup, clone_post, no_exc, trusted=["recreate_branches: its own unit"]),
 ]
+
+# _check_type never hands the action's own default object to the adaptation as the previous value (which the class-change handling edits in place)
+from contracts.check_type import check_type_unit  # noqa: E402
+UNITS.append(check_type_unit("C08"))
